@@ -65,6 +65,8 @@ impl<E: Executor> Pool<E> {
                                 let mut connections = pool.connections.lock().await;
                                 let Some(connections) = connections.as_mut() else {
                                     // The transport was shut down
+                                    #[cfg(lettre_verif)]
+                                    crate::verif_hooks::pool_probe("maint_exit", "");
                                     return;
                                 };
 
@@ -80,6 +82,15 @@ impl<E: Executor> Pool<E> {
                                     .map(|i| connections.remove(i))
                                     .collect::<Vec<_>>();
 
+                                #[cfg(lettre_verif)]
+                                crate::verif_hooks::pool_probe(
+                                    "maint_scan",
+                                    &dropped
+                                        .iter()
+                                        .map(|c| c.conn.server_info().name())
+                                        .collect::<Vec<_>>()
+                                        .join(","),
+                                );
                                 (connections.len(), dropped)
                             };
 
@@ -97,22 +108,32 @@ impl<E: Executor> Pool<E> {
                                         break;
                                     }
                                 };
+                                #[cfg(lettre_verif)]
+                                crate::verif_hooks::pool_probe("maint_connect_ok", conn.server_info().name());
 
                                 let mut connections_guard = pool.connections.lock().await;
                                 let Some(connections) = connections_guard.as_mut() else {
                                     // The transport was shut down
+                                    #[cfg(lettre_verif)]
+                                    crate::verif_hooks::pool_probe("maint_drop_new", conn.server_info().name());
+                                    #[cfg(lettre_verif)]
+                                    crate::verif_hooks::pool_probe("maint_exit", "");
                                     return;
                                 };
 
                                 if connections.len() >= pool.config.max_size as usize {
                                     // The idle set is already full (connections were
                                     // returned in the meantime, or `min_idle > max_size`)
+                                    #[cfg(lettre_verif)]
+                                    crate::verif_hooks::pool_probe("maint_drop_new", conn.server_info().name());
                                     drop(connections_guard);
                                     let mut conn = conn;
                                     conn.abort().await;
                                     break;
                                 }
 
+                                #[cfg(lettre_verif)]
+                                crate::verif_hooks::pool_probe("maint_push", conn.server_info().name());
                                 connections.push(ParkedConnection::park(conn));
 
                                 #[cfg(feature = "tracing")]
@@ -130,6 +151,10 @@ impl<E: Executor> Pool<E> {
                                 #[cfg(feature = "tracing")]
                                 tracing::debug!("dropped {} idle connections", dropped.len());
 
+                                #[cfg(lettre_verif)]
+                                for conn in &dropped {
+                                    crate::verif_hooks::pool_probe("maint_abort", conn.conn.server_info().name());
+                                }
                                 abort_concurrent(dropped.into_iter().map(ParkedConnection::unpark))
                                     .await;
                             }
@@ -156,6 +181,14 @@ impl<E: Executor> Pool<E> {
     }
 
     pub(crate) async fn shutdown(&self) {
+        #[cfg(lettre_verif)]
+        let connections = {
+            let mut guard = self.connections.lock().await;
+            let connections = guard.take();
+            crate::verif_hooks::pool_probe("shutdown", "");
+            connections
+        };
+        #[cfg(not(lettre_verif))]
         let connections = { self.connections.lock().await.take() };
         if let Some(connections) = connections {
             stream::iter(connections)
@@ -176,8 +209,17 @@ impl<E: Executor> Pool<E> {
                 let mut connections = self.connections.lock().await;
                 let Some(connections) = connections.as_mut() else {
                     // The transport was shut down
+                    #[cfg(lettre_verif)]
+                    crate::verif_hooks::pool_probe("pop_shutdown", "");
                     return Err(error::transport_shutdown());
                 };
+                #[cfg(lettre_verif)]
+                crate::verif_hooks::pool_probe(
+                    "pop",
+                    connections
+                        .last()
+                        .map_or("", |c| c.conn.server_info().name()),
+                );
                 connections.pop()
             };
 
@@ -189,6 +231,8 @@ impl<E: Executor> Pool<E> {
                     if !conn.test_connected().await {
                         #[cfg(feature = "tracing")]
                         tracing::debug!("dropping a broken connection");
+                        #[cfg(lettre_verif)]
+                        crate::verif_hooks::pool_probe("probe_fail", conn.server_info().name());
 
                         conn.abort().await;
                         continue;
@@ -196,6 +240,8 @@ impl<E: Executor> Pool<E> {
 
                     #[cfg(feature = "tracing")]
                     tracing::debug!("reusing a pooled connection");
+                    #[cfg(lettre_verif)]
+                    crate::verif_hooks::pool_probe("probe_ok", conn.server_info().name());
 
                     return Ok(PooledConnection::wrap(conn, Arc::clone(self)));
                 }
@@ -203,6 +249,14 @@ impl<E: Executor> Pool<E> {
                     #[cfg(feature = "tracing")]
                     tracing::debug!("creating a new connection");
 
+                    #[cfg(lettre_verif)]
+                    let conn = self.client.connection().await.map_err(|err| {
+                        crate::verif_hooks::pool_probe("connect_fail", "");
+                        err
+                    })?;
+                    #[cfg(lettre_verif)]
+                    crate::verif_hooks::pool_probe("connect_ok", conn.server_info().name());
+                    #[cfg(not(lettre_verif))]
                     let conn = self.client.connection().await?;
                     return Ok(PooledConnection::wrap(conn, Arc::clone(self)));
                 }
@@ -214,6 +268,8 @@ impl<E: Executor> Pool<E> {
         if conn.has_broken() {
             #[cfg(feature = "tracing")]
             tracing::debug!("dropping a broken connection instead of recycling it");
+            #[cfg(lettre_verif)]
+            crate::verif_hooks::pool_probe("recycle_close", conn.server_info().name());
 
             conn.abort().await;
             drop(conn);
@@ -225,14 +281,20 @@ impl<E: Executor> Pool<E> {
 
             if let Some(connections) = connections_guard.as_mut() {
                 if connections.len() >= self.config.max_size as usize {
+                    #[cfg(lettre_verif)]
+                    crate::verif_hooks::pool_probe("recycle_close", conn.server_info().name());
                     drop(connections_guard);
                     conn.abort().await;
                 } else {
+                    #[cfg(lettre_verif)]
+                    crate::verif_hooks::pool_probe("recycle_park", conn.server_info().name());
                     let conn = ParkedConnection::park(conn);
                     connections.push(conn);
                 }
             } else {
                 // The pool has already been shut down
+                #[cfg(lettre_verif)]
+                crate::verif_hooks::pool_probe("recycle_close", conn.server_info().name());
                 drop(connections_guard);
                 conn.abort().await;
             }
